@@ -40,7 +40,7 @@ def emit(engine, n, seed):
     elif engine == "c25":
         from checks import c25
         bases = c25.bases_for("quick", seed)
-        for i, b in enumerate(bases[10:11] + bases[12:12 + n - 1]):     # one fixed multi-rank base + seeded ones
+        for i, b in enumerate(bases[10:11] + bases[14:14 + n - 1]):     # one fixed multi-rank base + seeded ones
             r = c25.explore({"base": b, "seed": core.h64(seed, "det", i), "tier": "quick"})
             out.append([r["journal"], r["cuts"], r["unique_states"], sorted(json.dumps(f["sig"], sort_keys=True) for f in r["fail"])])
     elif engine == "c24":
